@@ -319,6 +319,7 @@ class Machine:
         self.stack = []
         self.errors = []
         self.trace = []
+        self.exit = None
 
     def garbage(self, width, why):
         self.n += 1
@@ -358,6 +359,8 @@ class Machine:
             return v.trunc(op[2])
         if op[0] == 'i':
             return self.immv(op, size, sx)
+        if op[1] != 4 and 'load' in self.h:
+            return self.h['load'](self, self.r[op[1]], op[2], op[3])
         idx, bo = self.slot(op)
         sz = op[3]
         if bo * 8 + sz > 64:
@@ -380,6 +383,9 @@ class Machine:
                 self.r[op[1]] = BV(self.m, old.b[:8] + v.b + old.b[16:])
             else:
                 self.r[op[1]] = BV(self.m, v.b + old.b[8:])
+            return
+        if op[1] != 4 and 'store' in self.h:
+            self.h['store'](self, self.r[op[1]], op[2], op[3], v)
             return
         idx, bo = self.slot(op)
         sz = op[3]
@@ -524,6 +530,10 @@ class Machine:
             ins = dec.decode(off)
             self.trace.append(ins)
             nxt = off + ins.length
+            if ins.mn in ('ret', 'jmpr'):
+                # leaves this code string: the caller inspects the state (jump target / return)
+                self.exit = (ins.mn, self.get(ins.src) if ins.mn == 'jmpr' else None, nxt == end)
+                return
             off = self.step(ins, nxt)
 
     def step(self, ins, nxt):
